@@ -357,6 +357,13 @@ class DescriptorTransaction(_TransactionBase):
                                             ):
                 updates = self._handle_state_updates(updates_dict)
                 dest_list.extend(updates)
+            # A descriptor can be touched more than once in a transaction (e.g. it is updated and a child is added or
+            # removed, which increments its version again). Report it once, with the content it finally has in the mdib.
+            final_descriptors = {}
+            for descriptor in proc.descr_updated:
+                final_descriptors[descriptor.Handle] = self._mdib.descriptions.handle.get_one(descriptor.Handle,
+                                                                                              allow_none=True)
+            proc.descr_updated = [descr.mk_copy() for descr in final_descriptors.values() if descr is not None]
         return proc
 
     def _update_corresponding_state(self, descriptor_container: AbstractDescriptorProtocol):
